@@ -69,6 +69,10 @@ pub trait Engine {
     fn shrink(&self, _case: &Self::Case) -> Vec<Self::Case> {
         Vec::new()
     }
+    /// what is written into the evidence file as a sample of this case (default: the case itself)
+    fn describe(&self, case: &Self::Case) -> J {
+        serde_json::to_value(case).unwrap_or(J::Null)
+    }
     /// called once before the loop (self checks of the harness' own tables etc.)
     fn self_check(&mut self, _obs: &mut Obs) -> Result<(), String> {
         Ok(())
@@ -422,7 +426,7 @@ pub fn run_engine<E: Engine>(e: &mut E, opts: &Opts) -> i32 {
                 if obs.nontrivial {
                     nontrivial_hashes.insert(h);
                     if samples.len() < 3 {
-                        samples.push(truncate_json(&cj, 1500));
+                        samples.push(truncate_json(&e.describe(&case), 1800));
                     }
                 }
             }
